@@ -43,7 +43,11 @@ fn main() {
                     }
                     None => 3,
                 },
-                "C01" | "C04" | "C05" | "C06" | "C07" | "C08" | "C09" | "C10" | "C11" | "C14" | "C15" | "C18" => check::run_engine_check(&id, &tier, seed, budget),
+                "C05" => match check::engine_report("C05", &tier, seed, budget) {
+                    Some(rep) => rep.merge(clientsim::c05_client_level_report(&tier, seed), "engine_simulation", "client_level").finish(),
+                    None => 3,
+                },
+                "C01" | "C04" | "C06" | "C07" | "C08" | "C09" | "C10" | "C11" | "C14" | "C15" | "C18" => check::run_engine_check(&id, &tier, seed, budget),
                 "C02" => codecfuzz::run_c02(&tier, seed),
                 "C16" => valfuzz::run_c16(&tier, seed),
                 "C12" => clientsim::run_c12(&tier, seed),
